@@ -26,7 +26,7 @@ LAYOUTS = ((1, "AA+BB"), (2, "AABB"), (4, "AABBCRCI"), (4, "STOKE"))
 
 def REQUIRED(tier):
     return ["files_generated", "files_in_domain", "whole_file_checks", "position_requests", "regime:unaligned_start", "regime:crosses_subint", "plan_checks", "reduction_checks",
-            "header_type_checks", "band:ascending", "band:descending", "layout:AABBCRCI", "layout:STOKE", "mutation_checks", "regime:partial_last_subint", "regime:chan_bw_card_disagrees_with_dat_freq"]
+            "header_type_checks", "band:ascending", "band:descending", "layout:AABBCRCI", "layout:STOKE", "mutation_checks", "regime:partial_last_subint", "regime:chan_bw_card_disagrees_with_dat_freq", "regime:path_previously_held_another_file", "regime:unit_scales_nonzero_offsets"]
 
 
 def cases(tier, seed):
@@ -35,7 +35,7 @@ def cases(tier, seed):
         yield {"fseed": int(seed) * 100003 + i, "force": i % 8}
 
 
-def _gen(case, ctx):
+def _gen(case, ctx, path=None):
     rng = np.random.default_rng([case["fseed"], 18])
     f = case["force"]
     npol, pol = LAYOUTS[[2, 3, 2, 3, 0, 1, 2, 3][f]] if f < 8 else LAYOUTS[int(rng.integers(0, 4))]
@@ -53,7 +53,12 @@ def _gen(case, ctx):
     wts = rng.choice([1.0, 1.0, 0.5, 0.0], size=(nsub, nchan))
     zero_off = float(rng.choice([0.0, 7.5, 0.5]))
     tbin = float(rng.choice([6.4e-5, 5.12e-4]))
-    path = os.path.join(ctx.tmp, f"p{case['fseed']}.sf")
+    if case["fseed"] % 5 == 3:
+        # rows calibrated with unit scales and non-zero offsets (a writer that stores unscaled bytes plus a per-channel baseline)
+        rows = rng.random(nsub) < 0.6
+        rows[int(rng.integers(0, nsub))] = True
+        scl[rows] = 1.0
+    path = path or os.path.join(ctx.tmp, f"p{case['fseed']}.sf")
     meta = dict(nbits=nbits, pol_type=pol, freqs=freqs, tbin=tbin, scl=scl, offs=offs, wts=wts, zero_off=zero_off)
     # one file in three has a partly filled last sub-integration: NSTOT (the number of valid samples) < NSBLK * rows
     nstot = nsub * nsblk - (int(rng.integers(1, nsblk)) if case["fseed"] % 3 == 1 else 0)
@@ -65,14 +70,30 @@ def _gen(case, ctx):
         cbw = -step if case["fseed"] % 8 == 2 else abs(step) * (1 if step < 0 else -1)
     psrfits.write_psrfits(path, raw, nstot=nstot, chan_bw=cbw, **meta)
     ref = psrfits.reference_values(raw, pol_type=pol, freqs=freqs, scl=scl, offs=offs, wts=wts, zero_off=zero_off)[:nstot]
-    info = {"nsub": nsub, "nsblk": nsblk, "nchan": nchan, "npol": npol, "pol_type": pol, "nbits": nbits, "ascending": ascending, "zero_off": zero_off, "tbin": tbin, "nstot": nstot, "chan_bw_card_disagrees": cbw is not None}
+    info = {"nsub": nsub, "nsblk": nsblk, "nchan": nchan, "npol": npol, "pol_type": pol, "nbits": nbits, "ascending": ascending, "zero_off": zero_off, "tbin": tbin, "nstot": nstot, "chan_bw_card_disagrees": cbw is not None,
+            "unit_scale_rows": bool(case["fseed"] % 5 == 3)}
     return path, ref, freqs, info
 
 
 def run_case(case, ctx):
     from sigpyproc.readers import FilReader, PFITSReader
 
+    if case["fseed"] % 2 == 0:
+        # the path was used before in this process by ANOTHER observation (other band order, zero offset, geometry): open and read it, then overwrite
+        reuse = os.path.join(ctx.tmp, f"p{case['fseed']}.sf")
+        try:
+            _gen({"fseed": case["fseed"] + 7, "force": (case["force"] + 1) % 8 if case["force"] < 4 else 2 + case["force"] % 2}, ctx, path=reuse)
+            with np.errstate(all="ignore"):
+                old = PFITSReader(reuse)
+                old.read_block(0, min(5, old.header.nsamples))
+                _ = (old.header.fch1, old.header.tstart)
+            del old
+            ctx.count("regime:path_previously_held_another_file")
+        except Exception:  # noqa: BLE001
+            pass
     path, ref, freqs, info = _gen(case, ctx)
+    if info["unit_scale_rows"]:
+        ctx.count("regime:unit_scales_nonzero_offsets")
     one = dict(case, file=info)
     ctx.count("files_generated")
     ctx.count("band:ascending" if info["ascending"] else "band:descending")
